@@ -93,7 +93,7 @@ def gen_table(rng, d, mode):
         else:                       # x on a symmetric grid and the even function x**2
             m = rng.choice([21, 40, 41, 61])
             x = np.arange(m) - (m - 1) / 2.0
-            Z = Z[:m].copy()
+            Z = rs.randn(m, d) @ L.T
             j = rng.randrange(1, d)
             Z[:, 0] = x
             Z[:, j] = x ** 2
